@@ -78,6 +78,8 @@ def judge(ctx, out, summ, confirm=True):
             if r["e"] in ("op", "pop") and r["op"] in MUT:
                 lastop = r["op"]
         own = owners(v["inv"], lastop)
+        if not own:
+            raise Infra("judgement %s of StoreMon.tla failed and no property owns it" % v["inv"])
         if ctx.pid not in own:
             other.add(v["inv"])
             continue
